@@ -8,6 +8,8 @@ CONSTANTS
     MaxRetry = 1
     MaxFail = 1
     AnyRemainder = FALSE
+    NonEmptyRem = FALSE
+    OutcomeSet = {"ok", "fail", "retry", "panic", "panicFut"}
     AllowKill = FALSE
     MaxIdleDelay = 500
     Emit = FALSE
